@@ -589,7 +589,7 @@ class ConvertStorySend(Contract):
         pre = lambda n: born(n) <= c0
         facts = [
             # nothing that existed before is touched
-            z3.ForAll([q, z], Imp(pre(q), A(H2.mem(q, z) == H.mem(q, z), H2.pos(q, z) == H.pos(q, z))), patterns=[H2.mem(q, z), H2.pos(q, z)]),
+            z3.ForAll([q, z], Imp(pre(q), A(H2.mem(q, z) == H.mem(q, z), H2.pos(q, z) == H.pos(q, z))), patterns=[H2.mem(q, z), H2.pos(q, z), H.mem(q, z)]),
             z3.ForAll([q], Imp(pre(q), A(H2.len(q) == H.len(q), H2.tag(q) == H.tag(q))), patterns=[H2.len(q), H2.tag(q)]),
             z3.ForAll([q, kk], Imp(pre(q), H2.at(q, kk) == H.at(q, kk)), patterns=[H2.at(q, kk)]),
             z3.ForAll([q, t], Imp(pre(q), A(H2.find(q, t) == H.find(q, t), H2.falen(q, t) == H.falen(q, t))), patterns=[H2.find(q, t), H2.falen(q, t)]),
